@@ -322,7 +322,7 @@ def work_twin(chunk_id, seed, n, binary, wd, part):
             continue
         res, g = ok[cid], gens[cid]
         must = {ln: ("int", "refusal candidate") for ln in g.cand}
-        contract(res, text, part, must, set(g.cand), where="[twin] ")
+        contract(res, text, part, must, set(g.cand) - g.math, where="[twin] ")
         refused = set()
         for ln in g.cand:
             ev = res.ev(ln)
@@ -481,7 +481,25 @@ def judge_late_vnadata(res, text, L, part):
                 script=text))
 
 
-KINDS = {"hist": work_hist, "family": work_family, "twin": work_twin,
+def work_handles(chunk_id, seed, n, binary, wd, part):
+    """the C16 histories (many successful table operations): contract on
+    every event, returned indices against the model"""
+    import gen_handles
+    cases = []
+    for k in range(n):
+        rng = np.random.default_rng([seed, chunk_id, k, 5555])
+        g = gen_handles.HandleGen(rng)
+        cases.append(("g%d_%d" % (chunk_id, k), g.generate(60)))
+    ok = run_and_std(binary, cases, wd, part)
+    for cid, text in cases:
+        if cid not in ok:
+            continue
+        part["evaluations"] += 1
+        contract(ok[cid], text, part, where="[handles] ")
+        index_model(ok[cid], text, part, strict=True)
+
+
+KINDS = {"handles": work_handles, "hist": work_hist, "family": work_family, "twin": work_twin,
          "late": work_late}
 
 
@@ -497,11 +515,11 @@ def main():
     chk = R.Check(PROP)
     binary = chk.build("asan")
     if chk.tier == "quick":
-        plan = [("hist", 20, 30), ("family", 4, 3), ("twin", 12, 12),
-                ("late", 8, 12)]
+        plan = [("hist", 32, 80), ("family", 4, 6), ("twin", 16, 30),
+                ("late", 12, 24), ("handles", 8, 24)]
     else:
-        plan = [("hist", 160, 150), ("family", 16, 12), ("twin", 64, 60),
-                ("late", 48, 60)]
+        plan = [("hist", 256, 200), ("family", 16, 16), ("twin", 128, 60),
+                ("late", 64, 60), ("handles", 48, 40)]
     payloads = []
     for kind, nchunks, per in plan:
         per = max(1, int(per * chk.args.scale))
